@@ -147,3 +147,14 @@ Example meta_smoke_hdlr_non_first :
   fst (run (h <- read_header ;; dec_meta_fuel 10 Dbg (snd h)) (stream_at bytes 0))
   = Ok (MetaMdir (Some ilst_default)).
 Proof. vm_compute. reflexivity. Qed.
+
+(** [read_box] leaves the stream where its last loop stopped, not at [start + size]: after a
+    zero-size child header the rest of the meta box is read by the PARENT's loop as the parent's
+    own children (here the position is 53 of 98) *)
+Example meta_smoke_no_final_seek :
+  let hd := wout (enc_hdlr (mkHdlr 0 0 0x74657374 [])) in
+  let payload := be 4 0 ++ hd ++ be 4 0 ++ be 4 0x66726565 ++ wout (enc_meta (MetaMdir None)) in
+  let bytes := be 4 (8 + lenN payload) ++ be 4 0x6d657461 ++ payload in
+  let r := run (h <- read_header ;; dec_meta_fuel 10 Dbg (snd h)) (stream_at bytes 0) in
+  fst r = Ok (MetaUnknown (mkHdlr 0 0 0x74657374 []) []) /\ s_pos (snd r) = 53 /\ lenN bytes = 98.
+Proof. vm_compute. repeat split; reflexivity. Qed.
